@@ -13,10 +13,19 @@
    precedes it writes nothing and leaves every connection's counter, fault plan and the logger set unchanged.
    Because the log only grows (C05_append_only) the acknowledgements of successive control frames appear on the
    sender's connection in the order the frames were processed.
-   The failing-send cases at stream level are decided against the implementation by the model correspondence
-   and the spec oracle (check_C19). *)
+   At the level of what run() does for a ready connection (Proofs/CtrlExact.v):
+   - C19_acked_once: at every reachable state, a SUBSCRIBE / RESUME / UNSUBSCRIBE / PAUSE frame (any argument,
+     changing something or not) from a sender that can be written to appends exactly `ack_frames s c` - one
+     ACKNOWLEDGE on the sender's connection, one copy per registered logger - so that the number of manager
+     acknowledgements seen on connection x is 1 if x is the sender, plus 1 if x is a registered logger, else 0;
+   - C19_never_acked: for DISCONNECT, MODULE_READY, CLIENT_SET_NAME and every data frame, and for every read outcome
+     (EOF, reset, truncated, invalid length), NO manager acknowledgement is written to ANY connection - with no
+     assumption at all about who is writable or whose sends fail, also when the operation crashes;
+   - C19_connect_acked: an accepted CONNECT writes the ACKNOWLEDGE on the requester's connection, the logger
+     copies, then the CLIENT_INFO notices, and nothing else.
+   Failing-send cases of the acknowledgement itself at stream level: model correspondence and spec oracle. *)
 From Coq Require Import ZArith List Bool Lia.
-From Mgr Require Import Gen.MgrDefs Model.Manager Proofs.RegInv Proofs.RegTop Proofs.Connect Proofs.StepInv Proofs.Routing Proofs.Exact Proofs.AckExact.
+From Mgr Require Import Gen.MgrDefs Model.Manager Proofs.RegInv Proofs.RegTop Proofs.Connect Proofs.StepInv Proofs.Routing Proofs.Hoare Proofs.C05Inv Proofs.Exact Proofs.AckExact Proofs.CtrlExact.
 Import ListNotations.
 Open Scope Z_scope.
 
@@ -138,3 +147,52 @@ Example C19_ack_exact_ex :
   | Crash _ _ => False
   end.
 Proof. vm_compute. repeat split; discriminate. Qed.
+
+(* ---- what run() does for one ready connection, end to end ---- *)
+Theorem C19_acked_once : forall cfg fuel es u s FUEL c h t,
+  run cfg fuel es = Ok u s -> 10 < loglevel cfg -> is_ctrl (h_type h) = true -> sendable s c -> loggers_sendable s ->
+  exists s', process_message cfg FUEL c h (InSub t) s = Ok tt s' /\ out s' = out s ++ ack_frames s c /\
+    forall x, acks_in (proj x (ack_frames s c)) =
+      ((if (x =? c)%Z then 1 else 0) + (if zmem x (loggers s) && m_reg (find_mod x (mods s)) then 1 else 0))%nat.
+Proof. exact ctrl_frame_acked_once. Qed.
+
+Theorem C19_acked_once_service : forall cfg FUEL c h t s,
+  10 < loglevel cfg -> is_ctrl (h_type h) = true -> m_reg (find_mod c (mods s)) = true -> bad_size (h_nbytes h) = false ->
+  sendable s c -> loggers_sendable s ->
+  exists s', service cfg FUEL c (IFrame h (InSub t)) s = Ok tt s' /\ out s' = out s ++ ack_frames s c.
+Proof. exact ctrl_frame_exact_service. Qed.
+
+Theorem C19_ack_fields : forall s c n,
+  h_type (set_count (ack_hdr s c) n) = MT_ACKNOWLEDGE /\ h_src_mod (set_count (ack_hdr s c) n) = MID_MESSAGE_MANAGER /\
+  h_dst_mod (set_count (ack_hdr s c) n) = m_mod_id (find_mod c (mods s)) /\ h_nbytes (set_count (ack_hdr s c) n) = 0 /\
+  h_count (set_count (ack_hdr s c) n) = n.
+Proof. exact ack_hdr_fields. Qed.
+
+Theorem C19_never_acked_service : forall cfg FUEL c ib s,
+  plain_inbound no_ack ib -> no_new_acks s (st (service cfg FUEL c ib s)).
+Proof. exact never_acked_service. Qed.
+
+Theorem C19_never_acked_process : forall cfg FUEL c h ip s,
+  plain_type (h_type h) -> h_type h <> MT_ACKNOWLEDGE -> no_new_acks s (st (process_message cfg FUEL c h ip s)).
+Proof. exact never_acked_type. Qed.
+
+Theorem C19_connect_acked : forall cfg fuel es u s (k : nat) c h lg dm,
+  run cfg fuel es = Ok u s ->
+  20 < loglevel cfg -> h_type h = MT_CONNECT -> m_connected (find_mod c (mods s)) = false ->
+  let s1 := stored s c h lg dm in
+  let s2 := connected_state s1 c in
+  m_mod_id (find_mod c (mods s1)) <> 0 -> bad_user_id (m_mod_id (find_mod c (mods s1))) = false ->
+  forallb (no_conflict c (find_mod c (mods s1))) (registered s1) = true ->
+  sendable s c -> loggers_sendable s ->
+  (forall f, In f (snapshot s MT_CLIENT_INFO) -> zmem f (wl s) = true /\ flookup f (faults s) = None) ->
+  exists s3 s',
+    process_message cfg (Datatypes.S k) c h (InConnect lg dm) s = Ok tt s' /\
+    out s3 = out s ++ ack_frames s2 c /\
+    out s' = out s3 ++ frames ci_hdr (client_payload false (find_mod c (mods s2))) s3 (snapshot s MT_CLIENT_INFO) /\
+    (forall d f, eligible d s3 f = eligible d s2 f) /\
+    m_connected (find_mod c (mods s2)) = true.
+Proof. exact connect_acked_exact_reachable. Qed.
+
+Definition C19_ex_subscribe := ctrl_ex_subscribe.
+Definition C19_ex_never_acked := ctrl_ex_never_acked.
+Definition C19_ex_connect := ctrl_ex_connect.
